@@ -74,13 +74,19 @@ type c12Edit struct {
 
 func (cs *c12Case) ruleExits() bool { return cs.RuleEnd == "exit" || cs.RuleEnd == "exit2" }
 
+// hasRule: something happens while the first record is processed (operations, ARGV edits, exit / next / nextfile)
+func (cs *c12Case) hasRule() bool { return len(cs.Rule) > 0 || len(cs.ArgvRule) > 0 || cs.RuleEnd != "" }
+
 // modelled: the case is within what the Lean model expresses (correspondence is run on it)
 func (cs *c12Case) modelled() bool {
 	return cs.ExitBegin == nil && len(cs.Rule) == 0 && len(cs.ArgvRule) == 0 && cs.RuleEnd == ""
 }
 
 // effArgs: the operands the main loop sees (after the edits that are executed)
-func (cs *c12Case) effArgs() []string {
+func (cs *c12Case) effArgs() []string { return cs.effArgsIf(true) }
+
+// effArgsIf: ruleRan says whether the first-record block was reached (there may be no record at all)
+func (cs *c12Case) effArgsIf(ruleRan bool) []string {
 	args := append([]string{}, cs.Args...)
 	apply := func(es []c12Edit) {
 		for _, e := range es {
@@ -95,7 +101,7 @@ func (cs *c12Case) effArgs() []string {
 		}
 	}
 	apply(cs.ArgvBegin)
-	if cs.ExitBegin == nil && !cs.ruleExits() {
+	if cs.ExitBegin == nil && !cs.ruleExits() && ruleRan {
 		apply(cs.ArgvRule)
 	}
 	return args
@@ -239,6 +245,9 @@ func c12Render(cs *c12Case, d string) (src string, vars []string) {
 	var bb, rb, eb, eBegin, eRule strings.Builder
 	emit(&bb, cs.Begin)
 	if cs.ExitBegin == nil {
+		if cs.hasRule() {
+			idx++ // "first": reading the first record
+		}
 		emit(&rb, cs.Rule)
 		if !cs.ruleExits() {
 			idx++ // the (rest of the) main loop is an operation of its own
@@ -252,7 +261,7 @@ func c12Render(cs *c12Case, d string) (src string, vars []string) {
 	if cs.InFunc {
 		b.WriteString("function fbegin() {\n" + bb.String() + "}\nfunction fend() {\n" + eb.String() + "}\n")
 	}
-	b.WriteString("BEGIN {\n" + eBegin.String())
+	b.WriteString("BEGIN {\n  rdone = 0\n" + eBegin.String()) // rdone: the first record has been processed (reset: Interpreters are reused)
 	if cs.InFunc {
 		b.WriteString("  fbegin()\n")
 	} else {
@@ -267,19 +276,22 @@ func c12Render(cs *c12Case, d string) (src string, vars []string) {
 	}
 	b.WriteString("}\n")
 	ruleBody := eRule.String() + rb.String()
+	if cs.hasRule() {
+		ruleBody = "  t(-4, 0, \"\")\n" + ruleBody
+	}
 	ruleEnd := map[string]string{"": "", "exit": "    exit\n", "exit2": "    exit 2\n", "next": "    next\n", "nextfile": "    nextfile\n"}[cs.RuleEnd]
 	hasRule := ruleBody != "" || ruleEnd != ""
 	switch {
 	case !hasRule:
 		b.WriteString("{ t(-1, NR, FILENAME \":\" $0) }\n")
 	case cs.RulePlace == "pattern":
-		b.WriteString("function fpat() {\n  if (NR == 1) {\n" + ruleBody + "  }\n  return 1\n}\n")
-		b.WriteString("fpat() {\n  t(-1, NR, FILENAME \":\" $0)\n  if (NR == 1) {\n" + ruleEnd + "  }\n}\n")
+		b.WriteString("function fpat() {\n  if (!rdone) {\n" + ruleBody + "  }\n  return 1\n}\n")
+		b.WriteString("fpat() {\n  t(-1, NR, FILENAME \":\" $0)\n  if (!rdone) {\n    rdone = 1\n" + ruleEnd + "  }\n}\n")
 	case cs.RulePlace == "func":
 		b.WriteString("function frule() {\n" + ruleBody + "}\n")
-		b.WriteString("{\n  t(-1, NR, FILENAME \":\" $0)\n  if (NR == 1) {\n    frule()\n" + ruleEnd + "  }\n}\n")
+		b.WriteString("{\n  t(-1, NR, FILENAME \":\" $0)\n  if (!rdone) {\n    rdone = 1\n    frule()\n" + ruleEnd + "  }\n}\n")
 	default:
-		b.WriteString("{\n  t(-1, NR, FILENAME \":\" $0)\n  if (NR == 1) {\n" + ruleBody + ruleEnd + "  }\n}\n")
+		b.WriteString("{\n  t(-1, NR, FILENAME \":\" $0)\n  if (!rdone) {\n    rdone = 1\n" + ruleBody + ruleEnd + "  }\n}\n")
 	}
 	b.WriteString("END {\n  t(-3, 0, \"\")\n")
 	if cs.InFunc {
@@ -483,6 +495,11 @@ func (cs *c12Case) ops() []c12Op {
 	if cs.ExitBegin != nil {
 		return append(ops, cs.End...) // exit in BEGIN: no input is read, END runs
 	}
+	if cs.hasRule() {
+		// the main loop delivers the first record (it may have to open an operand for that — and be refused); witnessed by the
+		// marker t(-4) at the start of the rule's first-record block
+		ops = append(ops, c12Op{K: "first"})
+	}
 	ops = append(ops, cs.Rule...)
 	if !cs.ruleExits() {
 		ops = append(ops, c12Op{K: "main"}) // (the rest of) the pattern-action loop
@@ -511,6 +528,13 @@ func c12Split(cs *c12Case, obs *c12Obs) (per []c12OpObs, failing int) {
 			}
 		case e.I == -2:
 			endSeen = true
+		case e.I == -4:
+			for k, op := range ops {
+				if op.K == "first" {
+					per[k].Done = true
+					cur = k + 1
+				}
+			}
 		case e.I == -3:
 			if mainIdx >= 0 {
 				per[mainIdx].Done = true
@@ -736,8 +760,14 @@ func c12Oracle(cs *c12Case, obs *c12Obs) (bad []c12Verdict, attempts int, swallo
 	stdinUsed := false
 	mainIdx := len(cs.Begin) // operations before this index run in BEGIN
 	hasMain := cs.mainIndex() >= 0
+	ruleRan := false
+	for _, e := range obs.Events {
+		if e.T && e.I == -4 {
+			ruleRan = true
+		}
+	}
 	regularOperands := 0
-	for _, a := range cs.effArgs() {
+	for _, a := range cs.effArgsIf(ruleRan) {
 		if a != "" && a != "-" {
 			regularOperands++
 		}
@@ -794,7 +824,7 @@ func c12Oracle(cs *c12Case, obs *c12Obs) (bad []c12Verdict, attempts int, swallo
 		}
 		if op.K == "main" {
 			wantsStdin, onlyEmpty := false, true
-			for _, a := range cs.effArgs() {
+			for _, a := range cs.effArgsIf(ruleRan) {
 				if a == "-" {
 					wantsStdin = true
 				}
@@ -1222,6 +1252,27 @@ func c12Corpus() []c12Case {
 			}
 		}
 	}
+	// the main loop is refused the operand that would deliver the first record, so the rule (and its getline < "-") is never reached:
+	// the error belongs to reading the first record (minimized past false alarm of the stdin clause)
+	for mask := 0; mask < 8; mask++ {
+		for _, w := range []c12Case{
+			{ArgvBegin: []c12Edit{{K: "append", N: "m0"}, {K: "append", N: "m0"}}, RulePlace: "func", RuleEnd: "exit",
+				Rule: []c12Op{{K: "gf", N: "-"}, {K: "pipe", N: "cw0"}, {K: "gc", N: "-"}}},
+			{Args: []string{"in0"}, RulePlace: "action", Rule: []c12Op{{K: "gf", N: "-", Form: 1}}},
+			{Args: []string{"in0"}, RuleEnd: "exit", End: []c12Op{{K: "gf", N: "-", Form: 2}}},
+			{Args: []string{"m0"}, RulePlace: "pattern", RuleEnd: "next", Rule: []c12Op{{K: "gf", N: "-"}}, End: []c12Op{{K: "gf", N: "-"}}},
+			// a getline in BEGIN already counted a record: "the first record the rule sees" is not NR == 1 (past false alarm)
+			{Begin: []c12Op{{K: "gl"}}, RulePlace: "pattern", Rule: []c12Op{{K: "gt", N: "o1"}}, ArgvRule: []c12Edit{{K: "append", N: "m0"}}},
+			{Begin: []c12Op{{K: "gl"}}, RulePlace: "action", ArgvRule: []c12Edit{{K: "append", N: "in0"}}},
+			// no record at all: the rule, and its ARGV edit, never happen
+			{Args: []string{"-"}, Begin: []c12Op{{K: "gf", N: "-"}, {K: "gf", N: "-"}, {K: "gf", N: "-"}}, RulePlace: "func", ArgvRule: []c12Edit{{K: "append", N: "in2"}}},
+		} {
+			cs := w
+			cs.Hook, cs.ShellOK = mask%2 == 0, true
+			c12Flags(&cs, mask)
+			res = append(res, cs)
+		}
+	}
 	// the shell cannot be started
 	for mask := 0; mask < 8; mask++ {
 		cs := c12Case{Hook: true, ShellOK: false, Begin: []c12Op{{K: "pipe", N: "cw0"}, {K: "gc", N: "cr0"}, {K: "sys", N: "sy0"}, {K: "close", N: "cw0"}, {K: "gt", N: "cr0", Form: 1}}}
@@ -1475,7 +1526,7 @@ func runC12(c *vh.Ctx) {
 		c.Hit(fmt.Sprintf("operands:%d", len(cs.Args)))
 		for _, op := range cs.ops() {
 			c.Hit("op:" + op.K)
-			if op.K != "gl" && op.K != "main" {
+			if op.K != "gl" && op.K != "main" && op.K != "first" {
 				cls := "file"
 				switch {
 				case c12IsSpecial(op.N):
